@@ -331,19 +331,23 @@ with MsSqlImpl.impl_store.impl_manager as impl:
 
     @impl(ops.is_inf)
     def _is_inf(x):
-        return False
+        # there is no inf: false (null for null); a SQL expression, so that it can be negated and ordered by
+        return x != x
 
     @impl(ops.is_not_inf)
     def _is_not_inf(x):
-        return True
+        # there is no inf: true (null for null); a SQL expression, so that it can be negated and ordered by
+        return x == x
 
     @impl(ops.is_nan)
     def _is_nan(x):
-        return False
+        # there is no nan: false (null for null); a SQL expression, so that it can be negated and ordered by
+        return x != x
 
     @impl(ops.is_not_nan)
     def _is_not_nan(x):
-        return True
+        # there is no nan: true (null for null); a SQL expression, so that it can be negated and ordered by
+        return x == x
 
     @impl(ops.pow)
     def _pow(x, y):
